@@ -189,16 +189,25 @@ def run(case, stats=None):
                     push(R[:, j], "".join(m[j] for m in M), op)
                 elif name == "elems":
                     # single elements picked by a list of row numbers and a list of column numbers (position p of row r, pair by pair)
-                    nonempty = [k for k, m in enumerate(M) if m]
+                    # (op['via']: the elements are picked from a view of the operand that nothing has read: columns reversed, rows reversed, first column cut off)
+                    via = op.get("via", 0)
+                    RV, MV = R, M
+                    if via == 1:
+                        RV, MV = R[:, ::-1], [m[::-1] for m in M]
+                    elif via == 2:
+                        RV, MV = R[::-1], M[::-1]
+                    elif via == 3:
+                        RV, MV = R[:, 1:], [m[1:] for m in M]
+                    nonempty = [k for k, m in enumerate(MV) if m]
                     if not nonempty:
                         continue
                     rs = [nonempty[k % len(nonempty)] for k in op["rows"]]
-                    cs = [norm_index(c_, len(M[r_])) for r_, c_ in zip(rs, op["cols"])]
+                    cs = [norm_index(c_, len(MV[r_])) for r_, c_ in zip(rs, op["cols"])]
                     rs = rs[:len(cs)]
                     if not rs:
                         continue
                     as_arr = (lambda x: np.array(x, dtype=int)) if op.get("arr") else list
-                    push(R[as_arr(rs), as_arr(cs)], "".join(M[r_][c_] for r_, c_ in zip(rs, cs)), op)
+                    push(RV[as_arr(rs), as_arr(cs)], "".join(MV[r_][c_] for r_, c_ in zip(rs, cs)), op)
                 elif name == "mask_elems":
                     # the letters at which the array equals a letter, taken with the boolean (ragged) mask itself
                     c = alphabet[op["c"] % len(alphabet)]
@@ -528,8 +537,8 @@ def op_strategy(with_matrix=False):
         st.builds(lambda s, a, b: {"op": "col_slice", "src": s, "a": a, "b": b, "s": None}, src, small, small),
         st.builds(lambda s: {"op": "col_slice", "src": s, "a": None, "b": None, "s": -1}, src),
         st.builds(lambda s, j: {"op": "cell", "src": s, "j": j}, src, st.integers(0, 20)),
-        st.builds(lambda s, r, c, a: {"op": "elems", "src": s, "rows": r, "cols": c, "arr": int(a)}, src, st.lists(st.integers(0, 30), min_size=1, max_size=4),
-                  st.lists(st.integers(0, 30), min_size=1, max_size=4), st.booleans()),
+        st.builds(lambda s, r, c, a, v: {"op": "elems", "src": s, "rows": r, "cols": c, "arr": int(a), "via": v}, src, st.lists(st.integers(0, 30), min_size=1, max_size=4),
+                  st.lists(st.integers(0, 30), min_size=1, max_size=4), st.booleans(), st.integers(0, 3)),
         st.builds(lambda s, c: {"op": "mask_elems", "src": s, "c": c}, src, st.integers(0, 25)),
         st.builds(lambda s, c, ne: {"op": "eq_char", "src": s, "c": c, "ne": int(ne)}, src, st.integers(0, 25), st.booleans()),
         st.builds(lambda s, k: {"op": "eq_array", "src": s, "k": k}, src, st.integers(0, 9)),
